@@ -1,9 +1,321 @@
 package props
 
-import "fmt"
+import (
+	"encoding/json"
+	"fmt"
+	"reflect"
+	"sort"
+	"strings"
 
-// SelfTest runs the harness self-checks (engine examples, generator soundness).
+	"verif/harness/internal/engine"
+	"verif/harness/internal/facts"
+	"verif/harness/internal/gen"
+	"verif/harness/internal/rig"
+
+	"github.com/vektah/gqlparser/v2"
+	"github.com/vektah/gqlparser/v2/ast"
+)
+
+// mapResolver resolves fields from nested Go maps (used by the engine examples).
+type mapResolver struct{ root map[string]any }
+
+func (m mapResolver) Resolve(s *ast.Schema, obj *engine.Obj, fd *ast.FieldDefinition, args map[string]any) any {
+	var cur map[string]any
+	if obj.Val == nil {
+		cur = m.root
+	} else {
+		cur = obj.Val.(map[string]any)
+	}
+	v := cur[fd.Name]
+	if fn, ok := v.(func(map[string]any) any); ok {
+		v = fn(args)
+	}
+	return wrapMaps(v)
+}
+
+func wrapMaps(v any) any {
+	switch x := v.(type) {
+	case map[string]any:
+		t, _ := x["__type"].(string)
+		return &engine.Obj{Type: t, Val: x}
+	case []any:
+		o := make([]any, len(x))
+		for i := range x {
+			o[i] = wrapMaps(x[i])
+		}
+		return o
+	}
+	return v
+}
+
+const stSDL = `
+interface Pet { name: String }
+type Dog implements Pet { name: String barks: Boolean }
+type Cat implements Pet { name: String lives: Int }
+union Any = Dog | Cat
+type Query { pets: [Pet] first: Any echo(n: Int = 7, s: String): String nn: Int! maybe: Dog matrix: [[Int]] }
+`
+
+type stCase struct {
+	q    string
+	vars map[string]any
+	want string
+}
+
+func engineExamples() []string {
+	s, err := gqlparser.LoadSchema(&ast.Source{Input: stSDL})
+	if err != nil {
+		return []string{"selftest schema: " + err.Error()}
+	}
+	dog := map[string]any{"__type": "Dog", "name": "rex", "barks": true}
+	cat := map[string]any{"__type": "Cat", "name": "tom", "lives": 9}
+	root := map[string]any{"pets": []any{dog, cat, nil}, "first": cat, "nn": 5, "maybe": nil, "matrix": []any{[]any{1, 2}, nil, []any{}},
+		"echo": func(a map[string]any) any { return fmt.Sprintf("n=%v s=%v", a["n"], a["s"]) }}
+	cases := []stCase{
+		{`{ pets { name ... on Dog { barks } ... on Cat { lives } } }`, nil, `{"pets":[{"name":"rex","barks":true},{"name":"tom","lives":9},null]}`},
+		{`{ a: first { __typename ... on Cat { n: name } } }`, nil, `{"a":{"__typename":"Cat","n":"tom"}}`},
+		{`query($x: Boolean!) { nn @skip(if: $x) maybe { name } }`, map[string]any{"x": true}, `{"maybe":null}`},
+		{`query($x: Boolean = false) { nn @include(if: $x) m: nn }`, nil, `{"m":5}`},
+		{`{ echo }`, nil, `{"echo":"n=7 s=<nil>"}`},
+		{`query($n: Int = 3, $s: String) { echo(n: $n, s: $s) }`, map[string]any{"s": "q"}, `{"echo":"n=3 s=q"}`},
+		{`query($n: Int) { echo(n: $n) }`, map[string]any{"n": nil}, `{"echo":"n=<nil> s=<nil>"}`},
+		{`{ pets { ...F } } fragment F on Pet { name ...G } fragment G on Dog { barks }`, nil, `{"pets":[{"name":"rex","barks":true},{"name":"tom"},null]}`},
+		{`{ first { ... on Dog { name } } }`, nil, `{"first":{}}`},
+		{`{ matrix }`, nil, `{"matrix":[[1,2],null,[]]}`},
+		{`{ pets { name } pets { ... on Cat { lives } } }`, nil, `{"pets":[{"name":"rex"},{"name":"tom","lives":9},null]}`},
+	}
+	var bad []string
+	for _, c := range cases {
+		res := engine.Execute(s, engine.Request{Query: c.q, Variables: c.vars}, mapResolver{root}, "")
+		if len(res.Errors) > 0 {
+			bad = append(bad, fmt.Sprintf("%s: errors %v", c.q, res.Errors[0].Message))
+			continue
+		}
+		var want any
+		json.Unmarshal([]byte(c.want), &want)
+		if got := rig.Roundtrip(res.Data); !reflect.DeepEqual(got, want) {
+			bad = append(bad, fmt.Sprintf("%s: got %s want %s", c.q, jsonStr(got), c.want))
+		}
+	}
+	return bad
+}
+
+// rebuildSDL turns a standard introspection answer into SDL (harness's own, independent rebuild).
+func rebuildSDL(data map[string]any) string {
+	var b strings.Builder
+	sch := data["__schema"].(map[string]any)
+	str := func(v any) string { s, _ := v.(string); return s }
+	var typeRef func(t map[string]any) string
+	typeRef = func(t map[string]any) string {
+		switch str(t["kind"]) {
+		case "NON_NULL":
+			return typeRef(t["ofType"].(map[string]any)) + "!"
+		case "LIST":
+			return "[" + typeRef(t["ofType"].(map[string]any)) + "]"
+		}
+		return str(t["name"])
+	}
+	desc := func(m map[string]any, ind string) {
+		if d := str(m["description"]); d != "" {
+			fmt.Fprintf(&b, "%s%q\n", ind, d)
+		}
+	}
+	args := func(l []any) string {
+		if len(l) == 0 {
+			return ""
+		}
+		var ps []string
+		for _, a := range l {
+			am := a.(map[string]any)
+			p := ""
+			if d := str(am["description"]); d != "" {
+				p = fmt.Sprintf("%q ", d)
+			}
+			p += str(am["name"]) + ": " + typeRef(am["type"].(map[string]any))
+			if dv, ok := am["defaultValue"].(string); ok {
+				p += " = " + dv
+			}
+			ps = append(ps, p)
+		}
+		return "(" + strings.Join(ps, ", ") + ")"
+	}
+	depr := func(m map[string]any) string {
+		if d, _ := m["isDeprecated"].(bool); d {
+			if r, ok := m["deprecationReason"].(string); ok {
+				return fmt.Sprintf(" @deprecated(reason: %q)", r)
+			}
+			return " @deprecated(reason: null)"
+		}
+		return ""
+	}
+	roots := []string{}
+	for _, k := range []string{"queryType", "mutationType", "subscriptionType"} {
+		if m, ok := sch[k].(map[string]any); ok && m != nil {
+			roots = append(roots, strings.TrimSuffix(k, "Type")+": "+str(m["name"]))
+		}
+	}
+	b.WriteString("schema { " + strings.Join(roots, " ") + " }\n")
+	for _, d := range sch["directives"].([]any) {
+		dm := d.(map[string]any)
+		n := str(dm["name"])
+		if n == "skip" || n == "include" || n == "deprecated" || n == "specifiedBy" {
+			continue
+		}
+		desc(dm, "")
+		var locs []string
+		for _, l := range dm["locations"].([]any) {
+			locs = append(locs, str(l))
+		}
+		rep := ""
+		if r, _ := dm["isRepeatable"].(bool); r {
+			rep = " repeatable"
+		}
+		fmt.Fprintf(&b, "directive @%s%s%s on %s\n", n, args(dm["args"].([]any)), rep, strings.Join(locs, " | "))
+	}
+	for _, t := range sch["types"].([]any) {
+		tm := t.(map[string]any)
+		n := str(tm["name"])
+		if strings.HasPrefix(n, "__") || n == "Int" || n == "Float" || n == "String" || n == "Boolean" || n == "ID" {
+			continue
+		}
+		desc(tm, "")
+		impl := ""
+		if l, ok := tm["interfaces"].([]any); ok && len(l) > 0 {
+			var ns []string
+			for _, i := range l {
+				ns = append(ns, typeRef(i.(map[string]any)))
+			}
+			impl = " implements " + strings.Join(ns, " & ")
+		}
+		fields := func() {
+			b.WriteString(" {\n")
+			if l, ok := tm["fields"].([]any); ok {
+				for _, f := range l {
+					fm := f.(map[string]any)
+					desc(fm, "  ")
+					fmt.Fprintf(&b, "  %s%s: %s%s\n", str(fm["name"]), args(fm["args"].([]any)), typeRef(fm["type"].(map[string]any)), depr(fm))
+				}
+			}
+			b.WriteString("}\n")
+		}
+		switch str(tm["kind"]) {
+		case "SCALAR":
+			b.WriteString("scalar " + n)
+			if u, ok := tm["specifiedByURL"].(string); ok {
+				fmt.Fprintf(&b, " @specifiedBy(url: %q)", u)
+			}
+			b.WriteString("\n")
+		case "OBJECT":
+			b.WriteString("type " + n + impl)
+			fields()
+		case "INTERFACE":
+			b.WriteString("interface " + n + impl)
+			fields()
+		case "UNION":
+			var ns []string
+			for _, p := range tm["possibleTypes"].([]any) {
+				ns = append(ns, str(p.(map[string]any)["name"]))
+			}
+			b.WriteString("union " + n + " = " + strings.Join(ns, " | ") + "\n")
+		case "ENUM":
+			b.WriteString("enum " + n + " {\n")
+			for _, ev := range tm["enumValues"].([]any) {
+				em := ev.(map[string]any)
+				desc(em, "  ")
+				b.WriteString("  " + str(em["name"]) + depr(em) + "\n")
+			}
+			b.WriteString("}\n")
+		case "INPUT_OBJECT":
+			b.WriteString("input " + n + " {\n")
+			for _, f := range tm["inputFields"].([]any) {
+				fm := f.(map[string]any)
+				desc(fm, "  ")
+				fmt.Fprintf(&b, "  %s: %s", str(fm["name"]), typeRef(fm["type"].(map[string]any)))
+				if dv, ok := fm["defaultValue"].(string); ok {
+					b.WriteString(" = " + dv)
+				}
+				b.WriteString("\n")
+			}
+			b.WriteString("}\n")
+		}
+	}
+	return b.String()
+}
+
+// introspectionRoundTrip checks that the reference engine's introspection answer rebuilds into an equal schema.
+func introspectionRoundTrip(n int) []string {
+	var bad []string
+	for i := 0; i < n; i++ {
+		r := rng(77, "selftest/schema", i)
+		f := gen.RandomFeatures(r)
+		if f.MaxWrapDepth > 7 {
+			f.MaxWrapDepth = 7
+		}
+		sdl := gen.GenSchema(r, f)
+		s, err := gqlparser.LoadSchema(&ast.Source{Input: sdl})
+		if err != nil {
+			bad = append(bad, "generator produced an invalid schema: "+err.Error())
+			continue
+		}
+		res := engine.Execute(s, engine.Request{Query: stdIntrospection2}, nil, "")
+		if len(res.Errors) > 0 {
+			bad = append(bad, "engine introspection errors: "+res.Errors[0].Message)
+			continue
+		}
+		re := rebuildSDL(rig.Roundtrip(res.Data).(map[string]any))
+		s2, err := gqlparser.LoadSchema(&ast.Source{Input: re})
+		if err != nil {
+			bad = append(bad, fmt.Sprintf("rebuilt SDL of schema %d does not load: %v", i, err))
+			continue
+		}
+		a, b := facts.Diff(facts.Of(s, facts.All()), facts.Of(s2, facts.All()))
+		if len(a)+len(b) > 0 {
+			sort.Strings(a)
+			bad = append(bad, fmt.Sprintf("schema %d: lost %v invented %v", i, truncList(a, 5), truncList(b, 5)))
+		}
+	}
+	return bad
+}
+
+// universeSoundness checks that generated universes project to loadable services whose facts union is the monolith's.
+func universeSoundness(n int) []string {
+	var bad []string
+	for i := 0; i < n; i++ {
+		cu, err := universe(99, "selftest", i, stdProfile)
+		if err != nil {
+			bad = append(bad, err.Error())
+			continue
+		}
+		o := facts.All()
+		var sets []facts.Set
+		for _, sv := range cu.spec.Services {
+			sc, _ := gqlparser.LoadSchema(&ast.Source{Input: sv.SDL})
+			sets = append(sets, facts.Of(sc, o))
+		}
+		a, b := facts.Diff(facts.Of(cu.mono, o), facts.Union(sets...))
+		if len(a)+len(b) > 0 {
+			bad = append(bad, fmt.Sprintf("universe %d: monolith-only %v services-only %v", i, truncList(a, 5), truncList(b, 5)))
+		}
+	}
+	return bad
+}
+
+// SelfTest runs the harness self-checks (engine examples, introspection round trip, generator soundness).
 func SelfTest() int {
-	fmt.Println("selftest: ok (placeholder)")
-	return 0
+	rc := 0
+	for name, bad := range map[string][]string{
+		"engine examples":                     engineExamples(),
+		"engine introspection rebuilds":       introspectionRoundTrip(60),
+		"universe projection = monolith facts": universeSoundness(40),
+	} {
+		if len(bad) == 0 {
+			fmt.Printf("selftest: %s: ok\n", name)
+			continue
+		}
+		rc = 2
+		for _, b := range bad {
+			fmt.Printf("selftest: %s: FAIL: %s\n", name, b)
+		}
+	}
+	return rc
 }
